@@ -1,10 +1,8 @@
 (* Properties/C16.v — RAT-SPNs: region graph, padding and un-padding index logic, completion,
-   per-node marginalisation steps.
-   NOT proved here (tied numerically on every run, see docs/notes_C16.md): the level-wise induction that
-   lifts C16_marginal_partial to every class output of rat_forward (C16_marginal, hence normalisation),
-   and the sampler law (C16_sample_measure). *)
+   marginalisation, sum over completions and normalisation of every class output, sampler measure. *)
 From Coq Require Import List Arith ZArith Bool Permutation Sorted Ring.
-From DV Require Import Model.Core Model.Leaves Model.Rat Proofs.RatRegion Proofs.RatUnpad Proofs.RatMarg.
+From DV Require Import Model.Core Model.Leaves Model.Sample Model.Rat Model.RatSample
+  Proofs.SampleFacts Proofs.RatRegion Proofs.RatUnpad Proofs.RatMarg Proofs.RatLift Proofs.RatSampleFacts.
 Import ListNotations.
 
 (* For every feature count n, every depth with 2^depth <= n (the constructor's admission test
@@ -65,13 +63,11 @@ Theorem C16_topdown_groups : forall (T : Type) (t0 : T) (tadd tmul : T -> T -> T
   map fst (fst (inner_down T t0 tadd tmul tleb tnear Ws x wy)) = seq (g * 2 ^ S (length Ws)) (2 ^ S (length Ws)).
 Proof. exact inner_down_groups. Qed.
 
-(* PARTIAL (what is missing: the induction over the layer list that applies these three steps to every
-   entry of pair_up / sum_layer / root_layer / base_layer of Model/Rat.v, using C16_regions_partition for
-   the disjointness of the regions 2k, 2k+1; until then C16_marginal and normalisation are tied, not
-   proved).  For every commutative semiring, `good sc f` = f ignores cells outside sc and sums out a
-   missing cell of sc:  (1) one entry x1[a]*x2[b] of ProductLayer over disjoint scopes, (2) one output node
-   of SumLayer/RootLayer (ANY weights) over nodes of a common scope, (3) a univariate leaf factor with a
-   table normalised over the variable's domain (NaN -> one). *)
+(* (name kept for the MANIFEST claim; no longer partial: C16_marginal below is the full statement)
+   The per-node steps behind C16_marginal, for every commutative semiring (`good sc f` = f ignores cells
+   outside sc and sums out a missing cell of sc): (1) one entry x1[a]*x2[b] of ProductLayer over disjoint
+   scopes, (2) one output node of SumLayer/RootLayer (ANY weights) over nodes of a common scope, (3) a
+   univariate leaf factor with a table normalised over the variable's domain (NaN -> one). *)
 Theorem C16_marginal_partial : forall (T : Type) (t0 t1 : T) (tadd tmul : T -> T -> T),
   semi_ring_theory t0 t1 tadd tmul (@eq T) -> forall dom : nat -> list Z,
   (forall sa sb f g, good T t0 tadd dom sa f -> good T t0 tadd dom sb g -> (forall v, In v sa -> ~ In v sb) ->
@@ -87,9 +83,100 @@ Proof.
   - exact (good_cell T t0 t1 tadd tmul SRth dom).
 Qed.
 
+Section C16_semiring.
+  Variable T : Type.
+  Variables (t0 t1 : T) (tadd tmul : T -> T -> T).
+  Hypothesis SRth : semi_ring_theory t0 t1 tadd tmul (@eq T).
+  Variable dom : nat -> list Z.
+
+  (* Every class output of the model that RatSpn.__init__ + forward build (rat_model: leaf regions from the
+     oracle permutations, masks, pad masks, base layer, Product,(Sum,Product)*, root), for every feature
+     count n, depth d = 1 + number of sum layers with 2^d <= n, any number of repetitions, EVERY admissible
+     answer of the permutation oracle, leaf tables of the right shape that are normalised over the variables'
+     domains (channels per region arbitrary), sum layers with one weight block per region (ANY weights, any
+     numbers of sum nodes) and ANY root weights:
+     (1) cells of variables outside 0..n-1 are ignored; (2) a NaN cell of any variable v < n is summed out
+     exactly; (3) with any duplicate-free list of NaN variables the value is the sum over all their completions. *)
+  Theorem C16_marginal : forall n d permss tabs Ws Wroot,
+    d = S (length Ws) -> 2 ^ d <= n ->
+    Forall (fun perms => length perms = d /\ adm [items n] perms) permss ->
+    length tabs = length permss * 2 ^ d -> tabs_ok T t0 t1 tadd dom (dim_of n d) tabs ->
+    wlen T (length permss) Ws ->
+    forall c, let out := fun r => nth c (rat_model T t0 t1 tadd tmul n d permss tabs Ws Wroot r) t0 in
+    (forall r v x, n <= v -> out (upd r v x) = out r) /\
+    (forall r v, v < n -> r v = None ->
+       out r = sumT T t0 tadd (map (fun x => out (upd r v (Some x))) (dom v))) /\
+    (forall vs, NoDup vs -> forall r, (forall v, In v vs -> v < n /\ r v = None) ->
+       out r = sum_compl T t0 tadd dom vs out r).
+  Proof.
+    intros n d permss tabs Ws Wroot Hd Hn Hp Hl Hok Hw c out.
+    pose proof (rat_good T t0 t1 tadd tmul SRth dom n d permss tabs Ws Wroot Hd Hn Hp Hl Hok Hw c) as G.
+    change (good T t0 tadd dom (items n) out) in G. pose proof G as [GL GM].
+    split; [|split].
+    - intros r v x Hv. apply (GL r v x). intro Hin. apply items_in in Hin. exact (Nat.lt_irrefl _ (Nat.lt_le_trans _ _ _ Hin Hv)).
+    - intros r v Hv Hnone. apply (GM r v); [|exact Hnone]. now apply items_in.
+    - intros vs Hnd r Hall. apply (good_iter T t0 tadd dom (items n) out G vs Hnd r).
+      intros v Hin. destruct (Hall v Hin) as [Hv Hnone]. split; [|exact Hnone]. now apply items_in.
+  Qed.
+
+  (* With the weight shapes RatSpn.__init__ allocates (wshape: one block per region, in_nodes = square of
+     the child node count, root rows of length repetitions * in_nodes), every weight row summing to one and B
+     channels per leaf region: the all-NaN input has value one at every class, and the values of every class
+     sum to one over all complete assignments of 0..n-1. *)
+  Theorem C16_normalised : forall n d permss B tabs Ws Wroot,
+    d = S (length Ws) -> 2 ^ d <= n ->
+    Forall (fun perms => length perms = d /\ adm [items n] perms) permss ->
+    length tabs = length permss * 2 ^ d -> tabs_ok T t0 t1 tadd dom (dim_of n d) tabs ->
+    Forall (fun tr => length tr = B) tabs ->
+    wshape T t0 t1 tadd (length permss) B Ws Wroot ->
+    forall c, c < length Wroot ->
+    let out := fun r => nth c (rat_model T t0 t1 tadd tmul n d permss tabs Ws Wroot r) t0 in
+    (forall r, (forall v, r v = None) -> out r = t1) /\
+    sum_compl T t0 tadd dom (items n) out row_none = t1.
+  Proof.
+    intros n d permss B tabs Ws Wroot Hd Hn Hp Hl Hok Hb Hw c Hc out.
+    assert (H1 : forall r, (forall v, r v = None) -> out r = t1).
+    { intros r Hr. exact (rat_all_missing T t0 t1 tadd tmul SRth n d permss B tabs Ws Wroot r Hd Hn Hp Hl Hb Hw Hr c Hc). }
+    split; [exact H1|].
+    pose proof (rat_good T t0 t1 tadd tmul SRth dom n d permss tabs Ws Wroot Hd Hn Hp Hl Hok
+                         (wshape_wlen T t0 t1 tadd _ Ws Wroot B Hw) c) as G.
+    change (good T t0 tadd dom (items n) out) in G.
+    rewrite <- (good_iter T t0 tadd dom (items n) out G (items n) (seq_NoDup n 0) row_none).
+    - apply H1. reflexivity.
+    - intros v Hv. split; [exact Hv | reflexivity].
+  Qed.
+
+  (* The sampler's measure (Model/RatSample.v: root and sum layers draw their child with the softmax
+     weights, a product layer descends into both child regions with offsets o // K and o % K, the base layer
+     draws every position of the selected (region, channel), the draws of dummy positions are dropped and a
+     real position writes the cell of its variable — C16_unpad) for class c, any admissible architecture,
+     ANY weights (normalised or not), leaf tables with duplicate-free keys whose masses sum to one:
+     the mass of the outcomes that equal a complete row x on 0..n-1 is exactly the model's value of x at
+     class c, and no outcome writes a cell outside 0..n-1.  (With C16_normalised the measure of a normalised
+     model is therefore the model's distribution.) *)
+  Theorem C16_sample_measure : forall n d permss tabs Ws Wroot,
+    d = S (length Ws) -> 2 ^ d <= n ->
+    Forall (fun perms => length perms = d /\ adm [items n] perms) permss ->
+    length tabs = length permss * 2 ^ d -> stabs_ok T t0 t1 tadd (dim_of n d) tabs ->
+    wlen T (length permss) Ws ->
+    forall c (z : nat -> Z),
+    let x : row := fun v => Some (z v) in
+    let M := nth c (rat_meas T t1 tmul n d permss tabs Ws Wroot) [] in
+    mass_at T t0 tadd M row_none (items n) x = nth c (rat_model T t0 t1 tadd tmul n d permss tabs Ws Wroot x) t0 /\
+    keys_in T M (items n).
+  Proof.
+    intros n d permss tabs Ws Wroot Hd Hn Hp Hl Hok Hw c z x M.
+    destruct (rat_sample_good T t0 t1 tadd tmul SRth z n d permss tabs Ws Wroot Hd Hn Hp Hl Hok Hw c) as [K E].
+    split; [exact E | exact K].
+  Qed.
+End C16_semiring.
+
 Print Assumptions C16_regions_partition.
 Print Assumptions C16_unpad.
 Print Assumptions C16_argsort_check_sound.
 Print Assumptions C16_mpe_preserves.
 Print Assumptions C16_topdown_groups.
 Print Assumptions C16_marginal_partial.
+Print Assumptions C16_marginal.
+Print Assumptions C16_normalised.
+Print Assumptions C16_sample_measure.
